@@ -179,12 +179,21 @@ func (c Cav) Go() macaroon.Caveat {
 		}
 		return &flyio.Mutations{Mutations: append([]string{}, *c.Strs...)}
 	case "CConfineUser":
+		if c.ID%2 == 0 {
+			return auth.RequireUser(c.ID) // the constructors applications use
+		}
 		return &auth.ConfineUser{ID: c.ID}
 	case "CConfineOrganization":
+		if c.ID%2 == 0 {
+			return auth.RequireOrganization(c.ID)
+		}
 		return &auth.ConfineOrganization{ID: c.ID}
 	case "CIsUser":
 		return &flyio.IsUser{ID: c.ID}
 	case "CConfineGitHubOrg":
+		if c.ID%2 == 0 {
+			return auth.RequireGitHubOrg(c.ID)
+		}
 		v := auth.ConfineGitHubOrg(c.ID)
 		return &v
 	case "CMaxValidity":
@@ -229,6 +238,9 @@ func (c Cav) Go() macaroon.Caveat {
 	case "CFromMachine":
 		return &flyio.FromMachine{ID: c.S[0]}
 	case "CConfineGoogleHD":
+		if len(c.S[0])%2 == 0 {
+			return auth.RequireGoogleHD(c.S[0])
+		}
 		v := auth.ConfineGoogleHD(c.S[0])
 		return &v
 	case "CIsMember":
